@@ -681,4 +681,540 @@ Section FPP.
     - destruct (IH (Rch_step _ _ _ _ _ _ HR Hb) Eo) as (k & m3 & l3 & q3 & -> & Hn & Hnm).
       exists (Datatypes.S k), m3, l3, q3. split; [reflexivity|]. split; [|assumption]. eapply ns_S; eassumption.
   Qed.
+
+  (* ------------------------------------------------------------------ C09 (3): termination from finite height *)
+  Section Termination.
+    Variable force : bool.
+    (* "finite height h": a rank bounded by h that strictly grows along every step the engine stores *)
+    Variable rank : S -> nat.
+    Variable h : nat.
+    Hypothesis rank_le : forall s, rank s <= h.
+    Hypothesis rank_gt : forall a b, cmp a b = Some Gt -> rank b < rank a.
+    (* only needed for force = true: the forced join must strictly grow.  (It does not follow from lattice
+       laws: with new < old the join is old again, and a self-loop then spins until the budget is gone.) *)
+    Hypothesis rank_force : force = true ->
+      forall new old j, cmp new old <> Some Eq -> join new old = Ok j -> rank old < rank j.
+    (* n locations, out-degree <= d *)
+    Variable U : list L.
+    Hypothesis U_nodup : NoDup U.
+    Hypothesis U_reach : forall l, reach l -> In l U.
+    Variable d : nat.
+    Hypothesis deg : forall l, reach l -> length (succ l) <= d.
+
+    Definition weight (m : map) (l : L) : nat :=
+      match lookup m l with None => Datatypes.S h | Some s => h - rank s end.
+    Definition phi (m : map) : nat := list_sum (List.map (weight m) U).
+    Definition mu (m : map) (q : list L) : nat := d * phi m + length q.
+
+    Lemma sum_decr (f g : L -> nat) l (V : list L) :
+      NoDup V -> In l V -> (forall x, x <> l -> g x = f x) -> g l < f l ->
+      list_sum (List.map g V) < list_sum (List.map f V).
+    Proof.
+      intros ND Hin Hext Hlt. unfold list_sum. induction V as [|a V IH]; [destruct Hin|].
+      inversion ND as [|? ? Hna ND']; subst. cbn [List.map fold_right].
+      destruct (eqb_spec a l) as [->|Na].
+      - assert (E : List.map g V = List.map f V).
+        { apply map_ext_in. intros x Hx. apply Hext. intro; subst; tauto. }
+        rewrite E. lia.
+      - destruct Hin as [->|Hin]; [congruence|]. rewrite (Hext a Na). specialize (IH ND' Hin). lia.
+    Qed.
+
+    Lemma phi_store m l new s : reach l -> stored force m l new s -> phi (insert m l s) < phi m.
+    Proof.
+      intros Rl Hs. unfold phi. apply sum_decr with (l := l); [assumption|apply U_reach; assumption| |].
+      - intros x Nx. unfold weight. rewrite lookup_insert_other by assumption. reflexivity.
+      - unfold weight. rewrite lookup_insert_same.
+        destruct Hs as [[Hl ->]|(old & Hl & Hc & [(_ & Hgt & ->)|(Hf & Hj)])]; rewrite Hl.
+        + pose proof (rank_le new). lia.
+        + pose proof (rank_gt _ _ Hgt). pose proof (rank_le new). lia.
+        + pose proof (rank_force Hf _ _ _ Hc Hj). pose proof (rank_le s). lia.
+    Qed.
+
+    Lemma mu_step m l q' m2 q2 : Rch m (l :: q') -> bstep force m l q' = Next m2 q2 -> mu m2 q2 < mu m (l :: q').
+    Proof.
+      intros HR Hb. assert (Rl : reach l) by (apply HR; right; left; reflexivity).
+      destruct (bstep_next _ _ _ _ _ _ Hb) as (ps & st & new & H1 & H2 & H3 & [(old & Hl & Hc & -> & ->)|(s & ss & Hp & -> & -> & Hs)]).
+      - unfold mu. cbn [length]. lia.
+      - rewrite (to_ok _ Rl) in Hp. inversion Hp; subst ss.
+        pose proof (phi_store _ _ _ _ Rl Hs) as Hphi. pose proof (push_all_length q' (succ l)) as Hlen.
+        pose proof (deg _ Rl) as Hd. unfold mu. cbn [length].
+        assert (d * phi (insert m l s) + d <= d * phi m) by nia. lia.
+    Qed.
+
+    Lemma term_exists : forall k m q, Rch m q -> mu m q <= k -> exists n o, n <= k /\ term force m q n o.
+    Proof.
+      induction k as [|k IH]; intros m q HR Hk.
+      - destruct q as [|l q']; [exists 0, (Done m); split; [lia|constructor]|]. unfold mu in Hk. cbn [length] in Hk. lia.
+      - destruct q as [|l q']; [exists 0, (Done m); split; [lia|constructor]|].
+        destruct (bstep force m l q') as [m2 q2|o] eqn:Hb.
+        + pose proof (mu_step _ _ _ _ _ HR Hb) as Hlt.
+          destruct (IH m2 q2 (Rch_step _ _ _ _ _ _ HR Hb)) as (n & o & Hn & Ht); [lia|].
+          exists (Datatypes.S n), o. split; [lia|]. eapply term_next; eassumption.
+        + exists 1, o. split; [lia|]. apply term_stop; assumption.
+    Qed.
+
+    Lemma phi_nil : phi [] = length U * Datatypes.S h.
+    Proof. unfold phi, weight, list_sum. cbn [FixedPoint.lookup]. clear U_nodup U_reach.
+           induction U as [|a V IH]; [reflexivity|]. cbn [List.map fold_right length]. rewrite IH. lia. Qed.
+
+    (* the loop stops within  1 + d * n * (h+1)  pops *)
+    Theorem fp_terminates :
+      exists n o, n <= 1 + d * (length U * Datatypes.S h) /\ term force [] [entry] n o.
+    Proof. apply term_exists; [apply Rch_init|]. unfold mu. rewrite phi_nil. cbn [length]. lia. Qed.
+
+    (* hence a budget of at least that many pops never causes MaxSteps: the forward engine returns the
+       outcome of the unbudgeted loop *)
+    Corollary fp_budget_suffices max :
+      1 + d * (length U * Datatypes.S h) <= Datatypes.S max ->
+      exists n o, term force [] [entry] n o /\ run (Datatypes.S (Datatypes.S max)) force max 0 [] [entry] = o.
+    Proof.
+      intros Hm. destruct fp_terminates as (n & o & Hn & Ht). exists n, o. split; [assumption|].
+      apply (term_run _ _ _ _ _ Ht); lia.
+    Qed.
+
+    Corollary fp_no_maxsteps max :
+      (forall l st, trans l st <> Err EMaxSteps) -> (forall a b, join a b <> Err EMaxSteps) ->
+      1 + d * (length U * Datatypes.S h) <= Datatypes.S max ->
+      run (Datatypes.S (Datatypes.S max)) force max 0 [] [entry] <> Fail EMaxSteps.
+    Proof.
+      intros Htr Hjn Hm. destruct (fp_budget_suffices max Hm) as (n & o & Ht & ->). intros ->.
+      clear Hm. revert Ht. generalize Rch_init. generalize ([entry]). generalize ([] : map).
+      intros m q HR Ht. remember (Fail EMaxSteps : outcome) as o eqn:Eo.
+      induction Ht as [m|m l q' o Hb|m l q' m2 q2 n o Hb Ht IH]; [discriminate| |].
+      - subst o. assert (Rl : reach l) by (apply HR; right; left; reflexivity).
+        unfold bstep in Hb. rewrite (from_ok _ Rl), (to_ok _ Rl) in Hb.
+        destruct (join_neighbours m (pred l)) as [st|e|] eqn:Hj; try discriminate.
+        + destruct (trans l st) as [new|e|] eqn:Ht; try discriminate.
+          * destruct (lookup m l) as [old|]; [|discriminate].
+            destruct (cmp new old) as [[| |]|]; try discriminate; destruct force; try discriminate;
+              destruct (join new old) as [j|e|] eqn:Hjn'; try discriminate; inversion Hb; subst; eapply Hjn; eassumption.
+          * inversion Hb; subst. eapply Htr; eassumption.
+        + exfalso. inversion Hb; subst. clear -Hj. unfold FixedPoint.join_neighbours in Hj.
+          assert (G : forall ps acc, acc <> Err EMaxSteps -> fold_left (join_step m) ps acc <> Err EMaxSteps).
+          { clear. induction ps as [|p ps IHp]; intros acc Ha; cbn; [assumption|]. apply IHp.
+            unfold FixedPoint.join_step. destruct acc as [s|e|]; try assumption; try discriminate.
+            destruct (lookup m p); [|discriminate]. destruct s; [|discriminate]. destruct (join s s0); discriminate. }
+          eapply G; [|eassumption]. discriminate.
+      - apply IH; [eapply Rch_step; eassumption|assumption].
+    Qed.
+
+    (* backward engine: termination from finite height alone *)
+    Corollary fp_terminates_nobudget fuel :
+      1 + d * (length U * Datatypes.S h) < fuel -> run_nobudget fuel force [] [entry] <> OutOfFuel.
+    Proof.
+      intros Hf. destruct fp_terminates as (n & o & Hn & Ht).
+      rewrite (term_run_nobudget _ _ _ _ _ Ht) by lia. eapply term_not_oof; eassumption.
+    Qed.
+  End Termination.
+
+  (* ------------------------------------------------------------------ the input None is only seen at the entry *)
+  Definition Fed (m : map) (q : list L) : Prop :=
+    forall l, In l q -> l = entry \/ exists p, In p (pred l) /\ In_dom m p.
+
+  Lemma Fed_init : Fed [] [entry].
+  Proof. intros l [<-|[]]. left; reflexivity. Qed.
+
+  Lemma Fed_step force m l q' m2 q2 : Rch m (l :: q') -> Fed m (l :: q') -> bstep force m l q' = Next m2 q2 -> Fed m2 q2.
+  Proof.
+    intros HR HF Hb. assert (Rl : reach l) by (apply HR; right; left; reflexivity).
+    destruct (bstep_next _ _ _ _ _ _ Hb) as (ps & st & new & H1 & H2 & H3 & [(old & Hl & Hc & -> & ->)|(s & ss & Hp & -> & -> & Hs)]).
+    - intros x Hx. apply HF. right; assumption.
+    - rewrite (to_ok _ Rl) in Hp. inversion Hp; subst ss.
+      intros x Hx. apply push_all_In in Hx. destruct Hx as [Hx|Hx].
+      + destruct (HF x (or_intror Hx)) as [->|(p & Hp1 & Hp2)]; [left; reflexivity|].
+        right. exists p. split; [assumption|]. apply In_dom_insert. tauto.
+      + right. exists l. split.
+        * apply converse; [assumption|eapply reach_step; eassumption|assumption].
+        * apply In_dom_insert. tauto.
+  Qed.
+
+  Lemma fold_stuck m ps (r : res (option S)) : (forall st, r <> Ok st) -> forall st, fold_left (join_step m) ps r <> Ok st.
+  Proof. revert r. induction ps as [|p ps IH]; intros r Hr st; cbn; [apply Hr|]. apply IH.
+         intros st'. unfold FixedPoint.join_step. destruct r; try discriminate. exfalso; eapply Hr; reflexivity. Qed.
+
+  Lemma join_neighbours_some m ps st :
+    (exists p, In p ps /\ In_dom m p) -> join_neighbours m ps = Ok st -> st <> None.
+  Proof.
+    unfold FixedPoint.join_neighbours.
+    assert (G : forall ps acc st, (acc <> None \/ exists p, In p ps /\ In_dom m p) ->
+                fold_left (join_step m) ps (Ok acc) = Ok st -> st <> None).
+    { clear ps st. induction ps as [|p ps IH]; intros acc st Hc Hf.
+      - cbn in Hf. inversion Hf; subst. destruct Hc as [H|(p & [] & _)]; assumption.
+      - cbn [fold_left] in Hf. unfold FixedPoint.join_step at 2 in Hf.
+        destruct (lookup m p) as [a|] eqn:Hl.
+        + destruct acc as [s0|].
+          * destruct (join s0 a) as [j|e|]; [|exfalso; eapply fold_stuck; [|exact Hf]; discriminate ..].
+            eapply IH; [|exact Hf]. left; discriminate.
+          * eapply IH; [|exact Hf]. left; discriminate.
+        + eapply IH; [|exact Hf]. destruct Hc as [H|(p0 & [->|Hin] & Hd)]; [left; assumption| |right; exists p0; auto].
+          exfalso. apply Hd. assumption. }
+    intros Hex. apply G. right; assumption.
+  Qed.
+
+  (* whenever the engine evaluates  trans l None,  l is the entry location *)
+  Theorem none_only_at_entry force k m l q' :
+    nsteps force k [] [entry] m (l :: q') -> join_neighbours m (pred l) = Ok None -> l = entry.
+  Proof.
+    intros Hn Hj.
+    assert (HI : Rch m (l :: q') /\ Fed m (l :: q')).
+    { refine (nsteps_inv (fun m q => Rch m q /\ Fed m q) force _ _ _ _ _ _ Hn (conj Rch_init Fed_init)).
+      intros m0 l0 q0 m2 q2 [A B] Hb. split; [eapply Rch_step|eapply Fed_step]; eassumption. }
+    destruct HI as [_ HF]. destruct (HF l (or_introl eq_refl)) as [->|Hex]; [reflexivity|].
+    exfalso. eapply join_neighbours_some; eauto.
+  Qed.
+
+  (* ------------------------------------------------------------------ C09 (2): the result is below every post-fixpoint *)
+  Definition ole (x y : option S) : Prop :=
+    match x, y with None, _ => True | Some a, Some b => le a b | Some _, None => False end.
+  (* m is pointwise below m' *)
+  Definition Below (m' m : map) : Prop :=
+    forall l s, lookup m l = Some s -> exists s', lookup m' l = Some s' /\ le s s'.
+
+  (* The lattice hypotheses are only required of the states in a set [good] that contains every state the
+     engine can produce (closed under trans and join); [good := fun _ => True] gives the plain statements. *)
+  Section Rel.
+    Variable good : S -> Prop.
+    Definition ogood (x : option S) : Prop := forall s, x = Some s -> good s.
+    Definition Good (m : map) : Prop := forall l s, lookup m l = Some s -> good s.
+    Hypothesis good_trans : forall l st a, reach l -> (st = None -> l = entry) -> ogood st -> trans l st = Ok a -> good a.
+    Hypothesis good_join : forall a b j, good a -> good b -> join a b = Ok j -> good j.
+    (* partial_cmp induces a preorder  le;  join returns least upper bounds; trans is monotone, the absent
+       input None being below everything -- required only where the engine can present None: at the entry *)
+    Hypothesis le_trans : forall a b c, good a -> good b -> good c -> le a b -> le b c -> le a c.
+    Hypothesis join_lub : forall a b j, good a -> good b -> join a b = Ok j ->
+      le a j /\ le b j /\ (forall c, good c -> le a c -> le b c -> le j c).
+    Hypothesis trans_mono : forall l x y a b, reach l -> (x = None -> l = entry) -> ogood x -> ogood y -> ole x y ->
+      trans l x = Ok a -> trans l y = Ok b -> le a b.
+
+    Lemma ogood_some s : good s -> ogood (Some s).
+    Proof. intros H s' [= <-]. assumption. Qed.
+    Lemma ogood_none : ogood None.
+    Proof. intros s' H; discriminate. Qed.
+
+    Lemma join_neighbours_good m ps st : Good m -> join_neighbours m ps = Ok st -> ogood st.
+    Proof.
+      intros HG. unfold FixedPoint.join_neighbours.
+      assert (G : forall ps acc st, ogood acc -> fold_left (join_step m) ps (Ok acc) = Ok st -> ogood st).
+      { clear ps st. induction ps as [|p ps IH]; intros acc st Ha Hf.
+        - cbn in Hf. inversion Hf; subst. assumption.
+        - cbn [fold_left] in Hf. unfold FixedPoint.join_step at 2 in Hf.
+          destruct (lookup m p) as [a|] eqn:Hl; [|eapply IH; eassumption].
+          destruct acc as [s0|].
+          + destruct (join s0 a) as [j|e|] eqn:Hj; [|exfalso; eapply fold_stuck; [|exact Hf]; discriminate ..].
+            eapply IH; [|exact Hf]. apply ogood_some. eapply good_join; [apply Ha; reflexivity|eapply HG; eassumption|eassumption].
+          + eapply IH; [|exact Hf]. apply ogood_some. eapply HG; eassumption. }
+      apply G. apply ogood_none.
+    Qed.
+
+    Lemma join_neighbours_mono m' m ps : Good m -> Good m' -> Below m' m ->
+      forall acc acc' st st', ogood acc -> ogood acc' -> ole acc acc' ->
+        fold_left (join_step m) ps (Ok acc) = Ok st -> fold_left (join_step m') ps (Ok acc') = Ok st' -> ole st st'.
+    Proof.
+      intros HG HG' HB. induction ps as [|p ps IH]; intros acc acc' st st' Ga Ga' Ho Hf Hf'.
+      - cbn in Hf, Hf'. inversion Hf; inversion Hf'; subst. assumption.
+      - cbn [fold_left] in Hf, Hf'. unfold FixedPoint.join_step at 2 in Hf. unfold FixedPoint.join_step at 2 in Hf'.
+        destruct (lookup m p) as [a|] eqn:Hl.
+        + destruct (HB _ _ Hl) as (a' & Hl' & Haa'). rewrite Hl' in Hf'.
+          pose proof (HG _ _ Hl) as Ka. pose proof (HG' _ _ Hl') as Ka'.
+          destruct acc as [s0|]; destruct acc' as [s0'|]; cbn in Ho; try contradiction.
+          * pose proof (Ga _ eq_refl) as K0. pose proof (Ga' _ eq_refl) as K0'.
+            destruct (join s0 a) as [j|e|] eqn:Hj; [|exfalso; eapply fold_stuck; [|exact Hf]; discriminate ..].
+            destruct (join s0' a') as [j'|e|] eqn:Hj'; [|exfalso; eapply fold_stuck; [|exact Hf']; discriminate ..].
+            pose proof (good_join _ _ _ K0 Ka Hj) as Kj. pose proof (good_join _ _ _ K0' Ka' Hj') as Kj'.
+            eapply IH; [apply ogood_some; exact Kj|apply ogood_some; exact Kj'| |exact Hf|exact Hf']. cbn.
+            destruct (join_lub _ _ _ K0 Ka Hj) as (_ & _ & Hlub). destruct (join_lub _ _ _ K0' Ka' Hj') as (U1 & U2 & _).
+            apply Hlub; [assumption|eapply (le_trans s0 s0' j')|eapply (le_trans a a' j')]; assumption.
+          * pose proof (Ga' _ eq_refl) as K0'.
+            destruct (join s0' a') as [j'|e|] eqn:Hj'; [|exfalso; eapply fold_stuck; [|exact Hf']; discriminate ..].
+            pose proof (good_join _ _ _ K0' Ka' Hj') as Kj'.
+            eapply IH; [apply ogood_some; exact Ka|apply ogood_some; exact Kj'| |exact Hf|exact Hf']. cbn.
+            destruct (join_lub _ _ _ K0' Ka' Hj') as (_ & U2 & _). eapply (le_trans a a' j'); assumption.
+          * eapply IH; [apply ogood_some; exact Ka|apply ogood_some; exact Ka'| |exact Hf|exact Hf']. cbn. assumption.
+        + destruct (lookup m' p) as [a'|] eqn:Hl'.
+          * pose proof (HG' _ _ Hl') as Ka'. destruct acc' as [s0'|].
+            -- pose proof (Ga' _ eq_refl) as K0'.
+               destruct (join s0' a') as [j'|e|] eqn:Hj'; [|exfalso; eapply fold_stuck; [|exact Hf']; discriminate ..].
+               pose proof (good_join _ _ _ K0' Ka' Hj') as Kj'.
+               eapply IH; [exact Ga|apply ogood_some; exact Kj'| |exact Hf|exact Hf']. destruct acc as [s0|]; cbn in *; [|exact I].
+               destruct (join_lub _ _ _ K0' Ka' Hj') as (U1 & _ & _). eapply (le_trans s0 s0' j'); try assumption. apply Ga; reflexivity.
+            -- eapply IH; [exact Ga|apply ogood_some; exact Ka'| |exact Hf|exact Hf']. destruct acc as [s0|]; cbn in *; [contradiction|exact I].
+          * eapply IH; [exact Ga|exact Ga'| |exact Hf|exact Hf']. assumption.
+    Qed.
+
+    Lemma Good_step force m l q' m2 q2 :
+      Rch m (l :: q') -> Fed m (l :: q') -> Good m -> bstep force m l q' = Next m2 q2 -> Good m2.
+    Proof.
+      intros HR HF HG Hb. assert (Rl : reach l) by (apply HR; right; left; reflexivity).
+      destruct (bstep_next _ _ _ _ _ _ Hb) as (ps & st & new & H1 & H2 & H3 & [(old & Hl & Hc & -> & ->)|(s & ss & Hp & -> & -> & Hs)]);
+        [assumption|].
+      rewrite (from_ok _ Rl) in H1. inversion H1; subst ps.
+      assert (Kn : good new).
+      { eapply (good_trans l st); try eassumption.
+        - intros ->. destruct (HF l (or_introl eq_refl)) as [->|Hex]; [reflexivity|].
+          exfalso. eapply join_neighbours_some; eauto.
+        - eapply join_neighbours_good; eassumption. }
+      assert (Ks : good s).
+      { destruct Hs as [[_ ->]|(old & Hl & _ & [(_ & _ & ->)|(_ & Hj)])]; try assumption.
+        eapply good_join; [exact Kn|eapply HG; exact Hl|exact Hj]. }
+      intros x sx Hx. destruct (eqb_spec x l) as [->|N].
+      - rewrite lookup_insert_same in Hx. inversion Hx; subst sx. assumption.
+      - rewrite lookup_insert_other in Hx by assumption. eapply HG; eassumption.
+    Qed.
+
+    Lemma Good_nil : Good [].
+    Proof. intros l s Hl; discriminate. Qed.
+
+    Section Least.
+      (* any post-fixpoint of the equations on the reachable locations (in particular any solution) *)
+      Variable m' : map.
+      Hypothesis m'_good : Good m'.
+      Hypothesis m'_post : forall l, reach l -> holds le m' l.
+
+      Lemma Below_step force m l q' m2 q2 :
+        Rch m (l :: q') -> Fed m (l :: q') -> Good m -> Below m' m -> bstep force m l q' = Next m2 q2 -> Below m' m2.
+      Proof.
+        intros HR HF HG HB Hb. assert (Rl : reach l) by (apply HR; right; left; reflexivity).
+        destruct (bstep_next _ _ _ _ _ _ Hb) as (ps & st & new & H1 & H2 & H3 & [(old & Hl & Hc & -> & ->)|(s & ss & Hp & -> & -> & Hs)]);
+          [assumption|].
+        rewrite (from_ok _ Rl) in H1. inversion H1; subst ps.
+        destruct (m'_post l Rl) as (st' & new' & s' & P1 & P2 & P3 & P4).
+        assert (Hg : st = None -> l = entry).
+        { intros ->. destruct (HF l (or_introl eq_refl)) as [->|Hex]; [reflexivity|].
+          exfalso. eapply join_neighbours_some; eauto. }
+        pose proof (join_neighbours_good _ _ _ HG H2) as Gst. pose proof (join_neighbours_good _ _ _ m'_good P1) as Gst'.
+        assert (Ho : ole st st').
+        { eapply (join_neighbours_mono m' m (pred l) HG m'_good HB None None); [apply ogood_none|apply ogood_none|exact I|exact H2|exact P1]. }
+        assert (Hg' : st' = None -> l = entry).
+        { intros ->. apply Hg. destruct st; [contradiction|reflexivity]. }
+        pose proof (good_trans _ _ _ Rl Hg Gst H3) as Kn. pose proof (good_trans _ _ _ Rl Hg' Gst' P2) as Kn'.
+        pose proof (m'_good _ _ P3) as Ks'.
+        assert (Hnew : le new s').
+        { eapply (le_trans new new' s'); try assumption. apply (trans_mono l st st'); assumption. }
+        assert (Hs' : le s s').
+        { destruct Hs as [[_ ->]|(old & Hl & _ & [(_ & _ & ->)|(_ & Hj)])]; try assumption.
+          destruct (HB _ _ Hl) as (s'' & E & Hold). rewrite P3 in E. inversion E; subst s''.
+          destruct (join_lub _ _ _ Kn (HG _ _ Hl) Hj) as (_ & _ & Hlub). apply Hlub; assumption. }
+        intros x sx Hx. destruct (eqb_spec x l) as [->|N].
+        - rewrite lookup_insert_same in Hx. inversion Hx; subst sx. exists s'. auto.
+        - rewrite lookup_insert_other in Hx by assumption. apply HB; assumption.
+      Qed.
+
+      Lemma term_least force n m : term force [] [entry] n (Done m) -> Below m' m.
+      Proof.
+        intros Ht.
+        assert (HI : Rch m [] /\ Fed m [] /\ Good m /\ Below m' m).
+        { refine (term_inv (fun m q => Rch m q /\ Fed m q /\ Good m /\ Below m' m) force _ _ _ _ _ Ht _).
+          - intros m0 l0 q0 m2 q2 (A & B & C & D) Hb. split; [eapply Rch_step; eassumption|].
+            split; [eapply Fed_step; eassumption|]. split; [eapply Good_step; eassumption|eapply Below_step; eassumption].
+          - split; [apply Rch_init|]. split; [apply Fed_init|]. split; [apply Good_nil|]. intros l s Hl; discriminate. }
+        tauto.
+      Qed.
+
+      Theorem fp_least_rel fuel force max m : run fuel force max 0 [] [entry] = Done m -> Below m' m.
+      Proof. intros Hr. destruct (run_done_term _ _ _ _ _ _ _ Hr) as (n & Ht). eapply term_least; eassumption. Qed.
+
+      Theorem fp_least_rel_nobudget fuel force m : run_nobudget fuel force [] [entry] = Done m -> Below m' m.
+      Proof. intros Hr. destruct (run_nobudget_done_term _ _ _ _ _ Hr) as (n & Ht). eapply term_least; eassumption. Qed.
+    End Least.
+
+    (* every state the engine returns is good *)
+    Theorem fp_good fuel force max m : run fuel force max 0 [] [entry] = Done m -> Good m.
+    Proof.
+      intros Hr. destruct (run_done_term _ _ _ _ _ _ _ Hr) as (n & Ht).
+      assert (HI : Rch m [] /\ Fed m [] /\ Good m).
+      { refine (term_inv (fun m q => Rch m q /\ Fed m q /\ Good m) force _ _ _ _ _ Ht _).
+        - intros m0 l0 q0 m2 q2 (A & B & C) Hb. split; [eapply Rch_step; eassumption|].
+          split; [eapply Fed_step; eassumption|eapply Good_step; eassumption].
+        - split; [apply Rch_init|]. split; [apply Fed_init|apply Good_nil]. }
+      tauto.
+    Qed.
+
+    (* ---------------------------------------------------------------- monotone analyses complete without error *)
+    Section Complete.
+      (* partial_cmp reports a state that is above the old one as Greater or Equal *)
+      Hypothesis cmp_ge : forall a b, good a -> good b -> le b a -> cmp a b = Some Gt \/ cmp a b = Some Eq.
+      Hypothesis join_total : forall a b, good a -> good b -> exists j, join a b = Ok j.
+      Hypothesis trans_total : forall l st, reach l -> (st = None -> l = entry) -> ogood st -> exists s, trans l st = Ok s.
+
+      (* every stored state is below the transfer of the current join of its neighbours *)
+      Definition Asc (m : map) : Prop :=
+        forall l s, lookup m l = Some s ->
+          exists st new, join_neighbours m (pred l) = Ok st /\ (st = None -> l = entry) /\ trans l st = Ok new /\ le s new.
+
+      Lemma join_neighbours_total m ps : Good m -> exists st, join_neighbours m ps = Ok st.
+      Proof.
+        intros HG. unfold FixedPoint.join_neighbours. generalize ogood_none. generalize (None : option S).
+        induction ps as [|p ps IH]; intros acc Ga; cbn [fold_left]; [eexists; reflexivity|].
+        unfold FixedPoint.join_step at 2. destruct (lookup m p) as [a|] eqn:Hl; [|apply IH; assumption].
+        destruct acc as [s0|]; [|apply IH; apply ogood_some; eapply HG; eassumption].
+        destruct (join_total s0 a (Ga _ eq_refl) (HG _ _ Hl)) as (j & Hj). rewrite Hj. apply IH.
+        apply ogood_some. eapply good_join; [apply Ga; reflexivity|eapply HG; eassumption|eassumption].
+      Qed.
+
+      Lemma Asc_store m l st new :
+        Asc m -> Good m -> good new -> (forall x, In_dom (insert m l new) x -> reach x) ->
+        (forall old, lookup m l = Some old -> le old new) ->
+        join_neighbours m (pred l) = Ok st -> (st = None -> l = entry) -> trans l st = Ok new ->
+        Asc (insert m l new).
+      Proof.
+        intros HA HG Kn HR Hold Hj Hg Ht.
+        assert (HG2 : Good (insert m l new)).
+        { intros x sx Hx. destruct (eqb_spec x l) as [->|N].
+          - rewrite lookup_insert_same in Hx. inversion Hx; subst; assumption.
+          - rewrite lookup_insert_other in Hx by assumption. eapply HG; eassumption. }
+        assert (HB : Below (insert m l new) m).
+        { intros x s Hx. destruct (eqb_spec x l) as [->|N].
+          - exists new. rewrite lookup_insert_same. split; [reflexivity|]. apply Hold; assumption.
+          - exists s. rewrite lookup_insert_other by assumption. split; [assumption|]. right. apply cmp_refl. }
+        intros x sx Hx.
+        assert (Rx : reach x) by (apply HR; unfold In_dom; congruence).
+        destruct (join_neighbours_total (insert m l new) (pred x) HG2) as (st2 & Hj2).
+        assert (Hcase : exists stx newx, join_neighbours m (pred x) = Ok stx /\ (stx = None -> x = entry) /\
+                                        trans x stx = Ok newx /\ le sx newx).
+        { destruct (eqb_spec x l) as [->|N].
+          - rewrite lookup_insert_same in Hx. inversion Hx; subst sx. exists st, new. repeat split; try assumption.
+            right. apply cmp_refl.
+          - rewrite lookup_insert_other in Hx by assumption. apply HA; assumption. }
+        destruct Hcase as (stx & newx & Hjx & Hgx & Htx & Hle).
+        pose proof (join_neighbours_good _ _ _ HG Hjx) as Gx. pose proof (join_neighbours_good _ _ _ HG2 Hj2) as G2.
+        assert (Ho : ole stx st2).
+        { eapply (join_neighbours_mono (insert m l new) m (pred x) HG HG2 HB None None); [apply ogood_none|apply ogood_none|exact I|exact Hjx|exact Hj2]. }
+        assert (Hg2 : st2 = None -> x = entry).
+        { intros ->. destruct stx; [contradiction|]. apply Hgx; reflexivity. }
+        destruct (trans_total x st2 Rx Hg2 G2) as (new2 & Ht2).
+        exists st2, new2. repeat split; try assumption.
+        eapply (le_trans sx newx new2).
+        - eapply HG2; eassumption.
+        - eapply (good_trans x stx); eassumption.
+        - eapply (good_trans x st2); eassumption.
+        - exact Hle.
+        - eapply (trans_mono x stx st2); eassumption.
+      Qed.
+
+      Lemma bstep_complete m l q' :
+        Rch m (l :: q') -> Fed m (l :: q') -> Good m -> Asc m -> exists m2 q2, bstep false m l q' = Next m2 q2 /\ Asc m2.
+      Proof.
+        intros HR HF HG HA. assert (Rl : reach l) by (apply HR; right; left; reflexivity).
+        destruct (join_neighbours_total m (pred l) HG) as (st & Hj).
+        assert (Hg : st = None -> l = entry).
+        { intros ->. destruct (HF l (or_introl eq_refl)) as [->|Hex]; [reflexivity|].
+          exfalso. eapply join_neighbours_some; eauto. }
+        pose proof (join_neighbours_good _ _ _ HG Hj) as Gst.
+        destruct (trans_total l st Rl Hg Gst) as (new & Ht).
+        pose proof (good_trans _ _ _ Rl Hg Gst Ht) as Kn.
+        assert (Hnext : forall m2 q2, bstep false m l q' = Next m2 q2 -> forall x, In_dom m2 x -> reach x).
+        { intros m2 q2 Hb x Hx. apply (Rch_step _ _ _ _ _ _ HR Hb). left; assumption. }
+        unfold bstep in *. rewrite (from_ok _ Rl), (to_ok _ Rl), Hj, Ht in *.
+        destruct (lookup m l) as [old|] eqn:Hl.
+        - destruct (HA _ _ Hl) as (st0 & new0 & Hj0 & _ & Ht0 & Hle).
+          rewrite Hj in Hj0. inversion Hj0; subst st0. rewrite Ht in Ht0. inversion Ht0; subst new0.
+          destruct (cmp_ge _ _ Kn (HG _ _ Hl) Hle) as [Hc|Hc]; rewrite Hc in *.
+          + eexists _, _. split; [reflexivity|]. eapply Asc_store; try eassumption.
+            * eapply Hnext; reflexivity.
+            * intros o Ho. rewrite Hl in Ho. inversion Ho; subst. assumption.
+          + eexists _, _. split; [reflexivity|assumption].
+        - eexists _, _. split; [reflexivity|]. eapply Asc_store; try eassumption.
+          + eapply Hnext; reflexivity.
+          + intros o Ho. rewrite Hl in Ho. discriminate.
+      Qed.
+
+      (* the unbudgeted loop of a monotone analysis can only stop with a result *)
+      Theorem fp_monotone_no_error_rel n o : term false [] [entry] n o -> exists m, o = Done m.
+      Proof.
+        assert (HA0 : Asc []) by (intros l s Hl; discriminate).
+        generalize Rch_init Fed_init Good_nil HA0. generalize ([entry]). generalize ([] : map).
+        intros m q HR HF HG HA Ht. induction Ht as [m|m l q' o Hb|m l q' m2 q2 n o Hb Ht IH].
+        - eexists; reflexivity.
+        - destruct (bstep_complete _ _ _ HR HF HG HA) as (m2 & q2 & Hb' & _). congruence.
+        - destruct (bstep_complete _ _ _ HR HF HG HA) as (m3 & q3 & Hb' & HA').
+          rewrite Hb in Hb'. inversion Hb'; subst m3 q3.
+          apply IH; [eapply Rch_step|eapply Fed_step|eapply Good_step|]; eassumption.
+      Qed.
+
+      (* finite height + monotone: both engines return a map -- no ordering error, no crash, and no MaxSteps
+         once the budget covers  1 + d n (h+1)  pops *)
+      Theorem fp_complete_rel (rank : S -> nat) h U d max :
+        (forall s, rank s <= h) -> (forall a b, cmp a b = Some Gt -> rank b < rank a) ->
+        NoDup U -> (forall l, reach l -> In l U) -> (forall l, reach l -> length (succ l) <= d) ->
+        1 + d * (length U * Datatypes.S h) <= Datatypes.S max ->
+        exists m, run (Datatypes.S (Datatypes.S max)) false max 0 [] [entry] = Done m.
+      Proof.
+        intros R1 R2 U1 U2 D Hm.
+        destruct (fp_budget_suffices false rank h R1 R2 (fun H => False_ind _ (Bool.diff_false_true H)) U U1 U2 d D max Hm) as (n & o & Ht & Hr).
+        destruct (fp_monotone_no_error_rel _ _ Ht) as (m & ->). exists m. assumption.
+      Qed.
+
+      Theorem fp_complete_rel_nobudget (rank : S -> nat) h U d fuel :
+        (forall s, rank s <= h) -> (forall a b, cmp a b = Some Gt -> rank b < rank a) ->
+        NoDup U -> (forall l, reach l -> In l U) -> (forall l, reach l -> length (succ l) <= d) ->
+        1 + d * (length U * Datatypes.S h) < fuel ->
+        exists m, run_nobudget fuel false [] [entry] = Done m.
+      Proof.
+        intros R1 R2 U1 U2 D Hf.
+        destruct (fp_terminates false rank h R1 R2 (fun H => False_ind _ (Bool.diff_false_true H)) U U1 U2 d D) as (n & o & Hn & Ht).
+        destruct (fp_monotone_no_error_rel _ _ Ht) as (m & ->). exists m. apply (term_run_nobudget _ _ _ _ _ Ht). lia.
+      Qed.
+    End Complete.
+  End Rel.
+
+  (* ---------------------------------------------------------------- the plain statements: good := everything *)
+  Section Plain.
+    Hypothesis le_trans : forall a b c, le a b -> le b c -> le a c.
+    Hypothesis join_lub : forall a b j, join a b = Ok j -> le a j /\ le b j /\ (forall c, le a c -> le b c -> le j c).
+    Hypothesis trans_mono : forall l x y a b, reach l -> (x = None -> l = entry) -> ole x y ->
+      trans l x = Ok a -> trans l y = Ok b -> le a b.
+
+    Let gd : S -> Prop := fun _ => True.
+    Let P1 : forall l st a, reach l -> (st = None -> l = entry) -> ogood gd st -> trans l st = Ok a -> gd a := fun _ _ _ _ _ _ _ => I.
+    Let P2 : forall a b j, gd a -> gd b -> join a b = Ok j -> gd j := fun _ _ _ _ _ _ => I.
+    Let P3 : forall a b c, gd a -> gd b -> gd c -> le a b -> le b c -> le a c := fun a b c _ _ _ => le_trans a b c.
+    Let P4 : forall a b j, gd a -> gd b -> join a b = Ok j -> le a j /\ le b j /\ (forall c, gd c -> le a c -> le b c -> le j c).
+    Proof. intros a b j _ _ Hj. destruct (join_lub a b j Hj) as (A & B & C). repeat split; try assumption. intros c _. apply C. Qed.
+    Let P5 : forall l x y a b, reach l -> (x = None -> l = entry) -> ogood gd x -> ogood gd y -> ole x y ->
+      trans l x = Ok a -> trans l y = Ok b -> le a b := fun l x y a b R G _ _ => trans_mono l x y a b R G.
+
+    Theorem fp_least m' : (forall l, reach l -> holds le m' l) ->
+      forall fuel force max m, run fuel force max 0 [] [entry] = Done m -> Below m' m.
+    Proof. intros Hp. apply (fp_least_rel gd P1 P2 P3 P4 P5 m'); [intros l s _; exact I|assumption]. Qed.
+
+    Theorem fp_least_nobudget m' : (forall l, reach l -> holds le m' l) ->
+      forall fuel force m, run_nobudget fuel force [] [entry] = Done m -> Below m' m.
+    Proof. intros Hp. apply (fp_least_rel_nobudget gd P1 P2 P3 P4 P5 m'); [intros l s _; exact I|assumption]. Qed.
+
+    Hypothesis cmp_ge : forall a b, le b a -> cmp a b = Some Gt \/ cmp a b = Some Eq.
+    Hypothesis join_total : forall a b, exists j, join a b = Ok j.
+    Hypothesis trans_total : forall l st, reach l -> (st = None -> l = entry) -> exists s, trans l st = Ok s.
+
+    Theorem fp_monotone_no_error n o : term false [] [entry] n o -> exists m, o = Done m.
+    Proof.
+      apply (fp_monotone_no_error_rel gd P1 P2 P3 P4 P5).
+      - intros a b _ _. apply cmp_ge.
+      - intros a b _ _. apply join_total.
+      - intros l st R G _. apply trans_total; assumption.
+    Qed.
+
+    Theorem fp_complete (rank : S -> nat) h U d max :
+      (forall s, rank s <= h) -> (forall a b, cmp a b = Some Gt -> rank b < rank a) ->
+      NoDup U -> (forall l, reach l -> In l U) -> (forall l, reach l -> length (succ l) <= d) ->
+      1 + d * (length U * Datatypes.S h) <= Datatypes.S max ->
+      exists m, run (Datatypes.S (Datatypes.S max)) false max 0 [] [entry] = Done m.
+    Proof.
+      apply (fp_complete_rel gd P1 P2 P3 P4 P5).
+      - intros a b _ _. apply cmp_ge.
+      - intros a b _ _. apply join_total.
+      - intros l st R G _. apply trans_total; assumption.
+    Qed.
+
+    Theorem fp_complete_nobudget (rank : S -> nat) h U d fuel :
+      (forall s, rank s <= h) -> (forall a b, cmp a b = Some Gt -> rank b < rank a) ->
+      NoDup U -> (forall l, reach l -> In l U) -> (forall l, reach l -> length (succ l) <= d) ->
+      1 + d * (length U * Datatypes.S h) < fuel ->
+      exists m, run_nobudget fuel false [] [entry] = Done m.
+    Proof.
+      apply (fp_complete_rel_nobudget gd P1 P2 P3 P4 P5).
+      - intros a b _ _. apply cmp_ge.
+      - intros a b _ _. apply join_total.
+      - intros l st R G _. apply trans_total; assumption.
+    Qed.
+  End Plain.
 End FPP.
